@@ -20,10 +20,13 @@ Collection-shaped feedback through the wiring layer (ORACLE-ONLY cases: no Coq m
                               make_feedback_*_node over those schemas, the real ranking, the Passive argument tag)
                               kind 4: feedback loop INSIDE a nested_<> child (passive field = variant 0 delay line / 1 accumulator,
                               structural field = nesting depth 1 or 2); kind 5: INSIDE a map_ body, one child per key (variant as 4)
+                              kind 6: feedback of TSB{a,b,c} shape, partial-field writes, two feedbacks (without / with initial value
+                              {0,0,0}); kind 7: feedback loop INSIDE a try_except_ child, a node ranked after the sink throws on negative values
   9 1                         (flat cases) run under the REAL-TIME executor with a virtual wall clock (verif_hook.h)
   8 t op key value            kind 4: op 1 x.set(value); kind 5: op 1 d[key] = value (value = key * 100000 + serial);  kind 1: op 1 add key, 2 remove key; kind 2: op 1 set key value, 2 erase key; kind 3: op 1 x.set(value)
   observations: 30 id t na a* nr r* nm m* (TSS tick: added, removed, members; id 1 = written side, 2 = feedback side),
                 31 id t nmod (k v)* nrem k* nall (k v)* (TSD tick), 32 t (grow evaluated), 33 t v (x ticked), 10 t, 19 code,
+                35 id t (modified valid value)x3 (TSB tick: id 1 written, 2 feedback, 3 feedback with initial value), 36 t (error captured),
                 34 side t v (inside a child graph: side 1 = written to the feedback, 2 = delivered by it)
 Observation lines
   10 t                     root cycle at t
@@ -169,10 +172,25 @@ def _times(rng, start, n):
 
 def gen_wired(rng, tier):
     start = rng.randint(1, 3)
-    kind = rng.choice([1, 1, 2, 3, 3, 4, 5, 5])
+    kind = rng.choice([1, 1, 2, 3, 3, 4, 5, 5, 6, 6, 7, 7])
     n = rng.randint(2, 6 if tier == "quick" else 10)
     times = _times(rng, start, n)
     lines = []
+    if kind == 6:
+        # partial-field writes: mostly one field per cycle, different subsets in consecutive writes
+        val = 0
+        for t in times:
+            fs = rng.sample([0, 1, 2], rng.choice([1, 1, 1, 2, 3]))
+            for f in sorted(fs):
+                val += 1
+                lines.append([8, t, 1, f, val * 10 + f])
+        return [[1, start, times[-1] + rng.randint(1, 4)], [7, 6, 0, 0]] + lines
+    if kind == 7:
+        # negative values are rejected by a node ranked after the sink (captured by try_except_)
+        for j, t in enumerate(times):
+            v = 10 + j
+            lines.append([8, t, 1, 0, -v if rng.random() < 0.4 else v])
+        return [[1, start, times[-1] + rng.randint(1, 4)], [7, 7, 0, 0]] + lines
     if kind == 4:
         for j, t in enumerate(times):
             lines.append([8, t, 1, 0, 1 + j * 3 + rng.randint(0, 2)])
@@ -462,7 +480,11 @@ def wired_regressions():
     c = [[1, 1, 31], [7, 5, 0, 0], [8, 1, 1, 1, 100000], [8, 1, 1, 2, 200000], [8, 2, 1, 2, 200001], [8, 3, 1, 1, 100002],
          [8, 3, 1, 2, 200002], [8, 4, 1, 2, 200003], [8, 7, 1, 1, 100006], [8, 8, 1, 2, 200007], [8, 8, 1, 3, 300007],
          [8, 9, 1, 3, 300008], [8, 13, 1, 1, 100012]]
-    return [a, b, c]
+    d = [[1, 1, 31], [7, 6, 0, 0], [8, 1, 1, 0, 1], [8, 2, 1, 1, 20], [8, 3, 1, 0, 3], [8, 3, 1, 1, 30], [8, 5, 1, 1, 50], [8, 6, 1, 0, 6],
+         [8, 7, 1, 0, 7], [8, 8, 1, 1, 80], [8, 10, 1, 2, 100]]
+    e = [[1, 1, 31], [7, 7, 0, 0], [8, 1, 1, 0, 11], [8, 2, 1, 0, 12], [8, 3, 1, 0, -13], [8, 6, 1, 0, 15], [8, 7, 1, 0, -16],
+         [8, 8, 1, 0, 17], [8, 10, 1, 0, -19], [8, 13, 1, 0, 22]]
+    return [a, b, c, d, e]
 
 
 def enumerate_cases(prop):
@@ -617,10 +639,56 @@ def stats_wired(case, out):
     start, end, kind, passive, structural, W, R, X, G, cycles = _wired_parse(case, out)
     return {"wired_cases": 1, "wired_tss": int(kind == 1), "wired_tsd": int(kind == 2), "wired_tsd_loop": int(kind == 3),
             "wired_passive_structural": int(kind == 3 and passive and structural), "coll_writes": len(W), "coll_deliveries": len(R),
-            "wired_nested_child": int(kind == 4), "wired_map_child": int(kind == 5),
+            "wired_nested_child": int(kind == 4), "wired_map_child": int(kind == 5), "wired_tsb": int(kind == 6),
+            "wired_try_except_child": int(kind == 7), "captured_errors": sum(1 for l in out if l[0] == 36),
+            "tsb_partial_writes": sum(1 for l in out if l[0] == 35 and l[1] == 1 and 0 < l[3] + l[6] + l[9] < 3),
             "child_writes": sum(1 for l in out if l[0] == 34 and l[1] == 1), "child_deliveries": sum(1 for l in out if l[0] == 34 and l[1] == 2),
             "removal_only_deltas": sum(1 for _t, p in W if _removal_only(p)), "cycles": len(cycles),
             "error": int(any(l[0] == 19 for l in out))}
+
+
+def _oracle_tsb(out, start, end, cycles):
+    """TSB-shaped feedback: per delivery the set of ticked fields and their values equal the producer's delta one
+    smallest step earlier; unticked fields keep what was delivered before."""
+    fails = []
+    recs = {1: [], 2: [], 3: []}
+    for l in out:
+        if l[0] == 35 and l[1] in recs:
+            recs[l[1]].append((l[2], [tuple(l[3 + 3 * f: 6 + 3 * f]) for f in range(3)]))
+    W = recs[1]
+    for rid, init in ((2, None), (3, 0)):
+        exp = []                                       # (t, {field: value} of the ticked fields)
+        if init is not None and start < end:
+            exp.append((start, {0: init, 1: init, 2: init}))
+        for (t, fl) in W:
+            if t + 1 < end:
+                exp.append((t + 1, {f: fl[f][2] for f in range(3) if fl[f][0]}))
+        got = recs[rid]
+        et, gt = [t for t, _ in exp], [t for t, _ in got]
+        name = "TSB feedback" + (" with initial value" if init is not None else "")
+        if et != gt:
+            miss = [t for t in et if t not in gt]
+            extra = [t for t in gt if t not in et]
+            fails.append(("fb_lost" if miss else "fb_spurious", "%s: deliveries expected at %s, observed at %s" % (name, et[:12], gt[:12])))
+            continue
+        held = {}
+        for (t, want), (_t, fl) in zip(exp, got):
+            ticked = {f for f in range(3) if fl[f][0]}
+            if ticked != set(want):
+                kindf = "fb_field_dup" if ticked > set(want) else ("fb_field_lost" if ticked < set(want) else "fb_field_value")
+                fails.append((kindf, "%s: at %d the feedback output ticked fields %s but the delta written one step earlier ticked %s (delivered %s)"
+                              % (name, t, sorted(ticked), sorted(want), fl)))
+            for f, v in want.items():
+                if fl[f][1] != 1 or fl[f][2] != v:
+                    fails.append(("fb_field_value", "%s: at %d field %d delivered %s, written %d" % (name, t, f, fl[f], v)))
+            held.update(want)
+            for f in range(3):
+                if f not in want and (fl[f][1], fl[f][2]) != ((1, held[f]) if f in held else (0, 0)):
+                    fails.append(("fb_field_value", "%s: at %d unticked field %d shows %s, previously delivered %s" % (name, t, f, fl[f], held.get(f))))
+        for t in et:
+            if t not in cycles:
+                fails.append(("fb_no_cycle", "no cycle at %d for a TSB delivery" % t))
+    return fails
 
 
 def oracle_wired(case, out):
@@ -633,18 +701,22 @@ def oracle_wired(case, out):
     if any(l[0] == 19 for l in out):
         return [("crash", "exception escaped the wired run")]
     start, end, kind, passive, structural, W, R, X, G, cycles = _wired_parse(case, out)
-    if kind in (4, 5):
-        # one loop instance per key (the value carries the key): the shift relation per instance
-        keys = sorted({l[3] // 100000 for l in out if l[0] == 34})
+    if kind == 6:
+        return fails + _oracle_tsb(out, start, end, cycles)
+    if kind in (4, 5, 7):
+        # one loop instance per key (in a map_ the value carries the key): the shift relation per instance
+        keyof = (lambda v: v // 100000) if kind == 5 else (lambda v: 0)
+        keys = sorted({keyof(l[3]) for l in out if l[0] == 34})
         for k in keys:
-            Wk = [(l[2], l[3]) for l in out if l[0] == 34 and l[1] == 1 and l[3] // 100000 == k]
-            Rk = [(l[2], l[3]) for l in out if l[0] == 34 and l[1] == 2 and l[3] // 100000 == k]
+            Wk = [(l[2], l[3]) for l in out if l[0] == 34 and l[1] == 1 and keyof(l[3]) == k]
+            Rk = [(l[2], l[3]) for l in out if l[0] == 34 and l[1] == 2 and keyof(l[3]) == k]
             expk = [(t + 1, v) for (t, v) in Wk if t + 1 < end]
             if Rk != expk:
                 missing = [e for e in expk if e not in Rk]
                 extra = [e for e in Rk if e not in expk]
                 kindf = "fb_lost" if missing and not extra else ("fb_spurious" if extra and not missing else "fb_delay")
-                where = "a nested_<> child (depth %d)" % structural if kind == 4 else "the map_ child of key %d" % k
+                where = ("a nested_<> child (depth %d)" % structural if kind == 4 else
+                         "a try_except_ child" if kind == 7 else "the map_ child of key %d" % k)
                 fails.append((kindf, "feedback loop inside %s: written %s; expected deliveries %s; observed %s; missing %s; extra %s"
                               % (where, Wk[:10], expk[:10], Rk[:10], missing[:4], extra[:4])))
             for (t, _v) in expk:
@@ -719,7 +791,7 @@ def nontrivial(case, out):
     if not isinstance(out, list):
         return False
     if is_wired(case):
-        return sum(1 for l in out if l[0] in (30, 31, 34) and l[1] == 2) >= 2
+        return sum(1 for l in out if l[0] in (30, 31, 34, 35) and l[1] == 2) >= 2
     start, end, nodes, scripts = parse_case(case)
     st = streams(case, out)
     return any(len(st.get(s, [])) >= 2 for (_k, _p, s, _c) in pairs_of(nodes))
@@ -849,7 +921,8 @@ PROP_KINDS = {
     # C02 names "a feedback delivery" among the wake-ups a simulation run must honour
     "C02": {"fb_lost", "fb_delay", "fb_no_cycle", "no_quiesce"},
     "C08": {"fb_lost", "fb_dup", "fb_spurious", "fb_delay", "fb_reorder", "fb_no_cycle", "fb_same_cycle", "reader_view",
-            "passive_not_honoured", "no_quiesce", "coll_lost", "coll_spurious", "coll_mismatch"},
+            "passive_not_honoured", "no_quiesce", "coll_lost", "coll_spurious", "coll_mismatch",
+            "fb_field_dup", "fb_field_lost", "fb_field_value"},
 }
 
 
